@@ -98,7 +98,7 @@ Print Assumptions C03_lxml_sound_unguarded_refuted.
 
 Theorem C03_user_prefix_xml_refuted :
   clause_vector default_config w_user_prefix_xml_user w_user_prefix_xml_evs
-  = [false; true; true; true; true; true; true; true; true; true]
+  = [false; true; true; true; true; true; true; true; true]
   /\ native_sound_b default_config w_user_prefix_xml_user w_user_prefix_xml_evs = false.
 Proof. exact user_prefix_xml_refuted. Qed.
 Print Assumptions C03_user_prefix_xml_refuted.
@@ -109,60 +109,54 @@ Theorem C03_user_prefix_invalid_refuted :
 Proof. exact user_prefix_invalid_refuted. Qed.
 Print Assumptions C03_user_prefix_invalid_refuted.
 
-Theorem C03_default_ns_attribute_refuted :
-  only_clause_fails 1 (clause_vector default_config w_default_ns_attribute_user w_default_ns_attribute_evs) = true
-  /\ native_sound_b default_config w_default_ns_attribute_user w_default_ns_attribute_evs = false.
-Proof. exact default_ns_attribute_refuted. Qed.
-Print Assumptions C03_default_ns_attribute_refuted.
-
 Theorem C03_default_ns_qname_reset_refuted :
-  only_clause_fails 2 (clause_vector default_config w_default_ns_qname_reset_user w_default_ns_qname_reset_evs) = true
+  only_clause_fails 1 (clause_vector default_config w_default_ns_qname_reset_user w_default_ns_qname_reset_evs) = true
   /\ native_sound_b default_config w_default_ns_qname_reset_user w_default_ns_qname_reset_evs = false
   /\ lxml_sound_b default_config w_default_ns_qname_reset_user w_default_ns_qname_reset_evs = false.
 Proof. exact default_ns_qname_reset_refuted. Qed.
 Print Assumptions C03_default_ns_qname_reset_refuted.
 
 Theorem C03_hostile_uri_refuted :
-  only_clause_fails 3 (clause_vector default_config w_hostile_uri_user w_hostile_uri_evs) = true
+  only_clause_fails 2 (clause_vector default_config w_hostile_uri_user w_hostile_uri_evs) = true
   /\ native_sound_b default_config w_hostile_uri_user w_hostile_uri_evs = false.
 Proof. exact hostile_uri_refuted. Qed.
 Print Assumptions C03_hostile_uri_refuted.
 
 Theorem C03_bad_name_refuted :
-  only_clause_fails 3 (clause_vector default_config w_bad_name_user w_bad_name_evs) = true
+  only_clause_fails 2 (clause_vector default_config w_bad_name_user w_bad_name_evs) = true
   /\ native_sound_b default_config w_bad_name_user w_bad_name_evs = false.
 Proof. exact bad_name_refuted. Qed.
 Print Assumptions C03_bad_name_refuted.
 
 Theorem C03_non_xml_char_refuted :
-  only_clause_fails 4 (clause_vector default_config w_non_xml_char_user w_non_xml_char_evs) = true
+  only_clause_fails 3 (clause_vector default_config w_non_xml_char_user w_non_xml_char_evs) = true
   /\ native_sound_b default_config w_non_xml_char_user w_non_xml_char_evs = false.
 Proof. exact non_xml_char_refuted. Qed.
 Print Assumptions C03_non_xml_char_refuted.
 
 Theorem C03_adjacent_data_refuted :
-  only_clause_fails 5 (clause_vector default_config w_adjacent_data_user w_adjacent_data_evs) = true
+  only_clause_fails 4 (clause_vector default_config w_adjacent_data_user w_adjacent_data_evs) = true
   /\ native_sound_b default_config w_adjacent_data_user w_adjacent_data_evs = false
   /\ lxml_sound_b default_config w_adjacent_data_user w_adjacent_data_evs = false.
 Proof. exact adjacent_data_refuted. Qed.
 Print Assumptions C03_adjacent_data_refuted.
 
 Theorem C03_late_qname_data_refuted :
-  only_clause_fails 6 (clause_vector default_config w_late_qname_data_user w_late_qname_data_evs) = true
+  only_clause_fails 5 (clause_vector default_config w_late_qname_data_user w_late_qname_data_evs) = true
   /\ native_sound_b default_config w_late_qname_data_user w_late_qname_data_evs = false
   /\ lxml_sound_b default_config w_late_qname_data_user w_late_qname_data_evs = false.
 Proof. exact late_qname_data_refuted. Qed.
 Print Assumptions C03_late_qname_data_refuted.
 
 Theorem C03_nil_kept_with_content_refuted :
-  only_clause_fails 7 (clause_vector default_config w_nil_kept_with_content_user w_nil_kept_with_content_evs) = true
+  only_clause_fails 6 (clause_vector default_config w_nil_kept_with_content_user w_nil_kept_with_content_evs) = true
   /\ native_sound_b default_config w_nil_kept_with_content_user w_nil_kept_with_content_evs = false
   /\ lxml_sound_b default_config w_nil_kept_with_content_user w_nil_kept_with_content_evs = false.
 Proof. exact nil_kept_with_content_refuted. Qed.
 Print Assumptions C03_nil_kept_with_content_refuted.
 
 Theorem C03_clark_datatype_text_refuted :
-  only_clause_fails 8 (clause_vector default_config w_clark_datatype_text_user w_clark_datatype_text_evs) = true
+  only_clause_fails 7 (clause_vector default_config w_clark_datatype_text_user w_clark_datatype_text_evs) = true
   /\ native_sound_b default_config w_clark_datatype_text_user w_clark_datatype_text_evs = false
   /\ lxml_sound_b default_config w_clark_datatype_text_user w_clark_datatype_text_evs = false.
 Proof. exact clark_datatype_text_refuted. Qed.
@@ -182,6 +176,12 @@ Example C03_std_prefix_collision_fixed :
 Proof. exact std_prefix_collision_fixed. Qed.
 Print Assumptions C03_std_prefix_collision_fixed.
 
+Example C03_default_ns_attribute_fixed :
+  writer_guard default_config w_default_ns_attribute_user w_default_ns_attribute_evs = true
+  /\ native_sound_b default_config w_default_ns_attribute_user w_default_ns_attribute_evs = true
+  /\ lxml_sound_b default_config w_default_ns_attribute_user w_default_ns_attribute_evs = true.
+Proof. exact default_ns_attribute_fixed. Qed.
+Print Assumptions C03_default_ns_attribute_fixed.
 Example C03_cr_in_text_fixed :
   writer_guard default_config [] w_cr_in_text_evs = true
   /\ native_sound_b default_config [] w_cr_in_text_evs = true
